@@ -8,12 +8,14 @@ import Pike.Driver.Sched
 import Pike.Driver.Codecs
 import Pike.Driver.Config
 import Pike.Driver.Upsel
+import Pike.Driver.Crash
 open Pike.Driver
 
 structure St where
   disp : DispSt := {}
   resp : RespSt := {}
   sched : SchedSt := {}
+  crash : CrashSt := {}
 
 def judgeLine (st : St) (line : String) : St × String :=
   match line.splitOn "\t" with
@@ -22,6 +24,7 @@ def judgeLine (st : St) (line : String) : St × String :=
   | "race" :: "bad" :: _ => (st, "ok race-bad 1 TRIP wrong_body_for_key")
   | "sched" :: rest => let (d, v) := judgeSched st.sched rest; ({ st with sched := d }, v)
   | "resp" :: rest => let (d, v) := judgeResp st.resp rest; ({ st with resp := d }, v)
+  | "crash" :: rest => let (d, v) := judgeCrash st.crash rest; ({ st with crash := d }, v)
   | "upsel" :: rest => (st, judgeUpsel rest)
   | "config" :: rest => (st, judgeConfig rest)
   | "codecs" :: rest => (st, judgeCodecs rest)
